@@ -7,6 +7,7 @@ import rope.base.pyobjects
 from rope.base import (
     arguments,
     ast,
+    codeanalyze,
     exceptions,
     nameanalyze,
     pyobjects,
@@ -133,7 +134,49 @@ class ScopeNameFinder:
             name = self.worder.get_from_aliased(offset)
         else:
             name = self.worder.get_primary_at(offset)
+        if self._is_in_header_expression(holding_scope, offset):
+            holding_scope = holding_scope.parent
         return eval_str2(holding_scope, name)
+
+    def _is_in_header_expression(self, scope, offset):
+        """Tell whether `offset` is in a default, annotation, decorator or base
+
+        They stand inside the ``def`` or ``class`` statement but are
+        evaluated in the scope that contains it: in ``def f(v=v)`` the
+        default is the outer ``v``.
+        """
+        if scope.parent is None or scope.get_kind() not in ("Function", "Class"):
+            return False
+        node = scope.pyobject.get_ast()
+        expressions = list(node.decorator_list)
+        if scope.get_kind() == "Class":
+            expressions.extend(node.bases)
+            expressions.extend(keyword.value for keyword in node.keywords)
+        else:
+            parameters = node.args
+            expressions.extend(parameters.defaults)
+            expressions.extend(parameters.kw_defaults)
+            expressions.extend(
+                arg.annotation
+                for arg in parameters.posonlyargs
+                + parameters.args
+                + parameters.kwonlyargs
+                + [parameters.vararg, parameters.kwarg]
+                if arg is not None
+            )
+            expressions.append(node.returns)
+        return any(
+            self._offset_of(expression.lineno, expression.col_offset)
+            <= offset
+            < self._offset_of(expression.end_lineno, expression.end_col_offset)
+            for expression in expressions
+            if expression is not None
+        )
+
+    def _offset_of(self, lineno, col_offset):
+        return self.lines.get_line_start(lineno) + codeanalyze.column_to_offset(
+            self.lines.get_line(lineno), col_offset
+        )
 
     def get_enclosing_function(self, offset):
         function_parens = self.worder.find_parens_start_from_inside(offset)
